@@ -55,6 +55,16 @@ pub fn ff_ops() -> Vec<String> {
     }
     v
 }
+/// Declared width of operand `i` of a big-integer operation: `p[0]`, except
+/// for the second operand when `p[2]` gives it its own width.
+pub fn big_nb(c: &OpCase, i: usize) -> u64 {
+    if i == 1 && c.p.len() > 2 {
+        c.p[2]
+    } else {
+        c.p[0]
+    }
+}
+
 pub fn big_ops() -> Vec<String> {
     BIG_OPS.iter().map(|o| format!("big.{o}")).collect()
 }
@@ -178,7 +188,8 @@ pub fn gen_case(rng: &mut Prng, op: &str) -> OpCase {
             o => panic!("unknown ff op {o}"),
         }
     } else {
-        let nb = *rng.pick(&[1u32, 2, 8, 64, 95, 96, 97, 128, 192, 193, 256, 512, 1024, 2048]);
+        // limb-aligned widths (the gadget's base is 2^96) are boundary classes of their own
+        let nb = if rng.chance(1, 3) { *rng.pick(&[96u32, 192, 288, 384]) } else { *rng.pick(&[1u32, 2, 8, 64, 95, 96, 97, 128, 192, 193, 256, 512, 1024, 2048]) };
         let nb = if matches!(parts[1], "mod_exp" | "mul" | "div_rem") && nb > 512 { 512 } else { nb };
         p.push(nb as u64);
         match parts[1] {
@@ -232,6 +243,26 @@ pub fn gen_case(rng: &mut Prng, op: &str) -> OpCase {
                 ins = (0..n).map(|_| Fq::from(rng.below(256))).collect();
             }
             o => panic!("unknown big op {o}"),
+        }
+        // operands of different declared widths (different limb counts)
+        if matches!(parts[1], "add" | "sub" | "mul" | "lower_than" | "is_equal" | "assert_equal" | "div_rem" | "select" | "mod_exp") && bins.len() == 2 && rng.chance(1, 2) {
+            let nb1 = *rng.pick(&[1u32, 8, 64, 96, 97, 192, 193, 256, 512]);
+            if p.len() < 2 {
+                p.push(0);
+            }
+            p.push(nb1 as u64);
+            // carries out of the most significant limb of the wider operand
+            if matches!(parts[1], "add" | "sub" | "lower_than" | "is_equal") && rng.chance(1, 3) {
+                bins[0] = (BigUint::one() << nb) - 1u32;
+            }
+            let keep = bins[1].bits() <= nb1 as u64 && rng.chance(1, 2);
+            if !keep {
+                bins[1] = match rng.below(4) {
+                    0 => (BigUint::one() << nb1) - 1u32,
+                    1 if parts[1] == "mod_exp" || parts[1] == "div_rem" => BigUint::one(),
+                    _ => big_class(rng, nb1),
+                };
+            }
         }
     }
     OpCase {
@@ -384,7 +415,8 @@ pub fn body<L: Layouter<F>>(c: &OpCase, s: &ZkStdLib, l: &mut L, w: &[Value<F>],
     // big unsigned integers
     let g = s.biguint();
     let nb = c.p[0] as u32;
-    let xs: Vec<AssignedBigUint<F>> = wb.iter().map(|v| g.assign_biguint(l, v.clone(), nb)).collect::<Result<_, _>>()?;
+    let _ = nb;
+    let xs: Vec<AssignedBigUint<F>> = wb.iter().enumerate().map(|(i, v)| g.assign_biguint(l, v.clone(), big_nb(c, i) as u32)).collect::<Result<_, _>>()?;
     let op = parts[1];
     let nat: Vec<AN> = match op {
         "select" => {
@@ -490,6 +522,10 @@ pub fn take_noncanonical() -> Option<String> {
 }
 
 /// An emulated field element from its published limbs: limbs in [0, base), value + 1 canonical.
+pub fn decode_field(g: &[Fq], field: &str) -> Result<BigUint, String> {
+    decode_ff(g, field)
+}
+
 fn decode_ff(g: &[Fq], field: &str) -> Result<BigUint, String> {
     let m = modulus_of(field);
     let (lb, nl) = limb_params(field);
@@ -654,8 +690,9 @@ pub fn check(c: &OpCase, publics: &[Fq]) -> Result<bool, String> {
     let nb = c.p[0];
     let x: Vec<BigUint> = bgi.iter().map(|g| decode_big(g)).collect::<Result<_, _>>()?;
     if matches!(parts[1], "add" | "sub" | "mul" | "div_rem" | "mod_exp" | "lower_than" | "is_equal" | "assert_equal" | "select" | "to_le_bits" | "to_le_bytes" | "is_zero")
-        && x.iter().any(|v| v.bits() > nb)
+        && x.iter().enumerate().any(|(i, v)| v.bits() > big_nb(c, i))
     {
+        let _ = nb;
         return Ok(false); // an input exceeding its declared width must be unsatisfiable
     }
     let outg = |i: usize| decode_big(&go[i]);
@@ -752,8 +789,7 @@ pub fn expected_admissible(c: &OpCase) -> bool {
             _ => true,
         };
     }
-    let nb = c.p[0];
-    if x.iter().any(|v| v.bits() > nb) {
+    if x.iter().enumerate().any(|(i, v)| v.bits() > big_nb(c, i)) {
         return false;
     }
     match parts[1] {
